@@ -136,4 +136,30 @@ theorem fri_verify_sound (queries : List Felt) (c : Commitment) (values points :
   cases h1
   exact ⟨wi, ei, sti, h2, h3, h4, fri_layer_sound hh nc cell _ _ _ _ _ _ h5 g1 g2 hr h6⟩
 
+/-- `fri_verify_sound` with the range side condition discharged by a bound function `B`
+    (`B 0` above all queries, `B i ≤ B (i+1) · coset size`, `B (i+1) ≤ 2^h_i`). -/
+theorem fri_verify_sound_ranged (queries : List Felt) (c : Commitment) (values points : List Felt)
+    (ws : List LayerWitness) (hok : verify H queries c values points ws = .ok ())
+    (hne : queries ≠ []) (hs : (queries.map (·.val)).Pairwise (· < ·))
+    (hb : ∀ x ∈ queries, x.val < 2 ^ 64)
+    (B : Nat → Nat) (hB0 : ∀ x ∈ queries, x.val < B 0)
+    (hB : ∀ i, i < (c.config.nLayers - 1).val → ∀ st, c.config.friStepSizes[i + 1]? = some st →
+      B i ≤ B (i + 1) * (Felt.pow 2 st.val).val) :
+    ∃ q nl, AcceptTrace H queries c values points ws q nl ∧
+      ∀ i, i < (c.config.nLayers - 1).val →
+        ∀ (nf : Felt) (h : Nat) (nc : Felt) (cell : Nat → Nat → Felt),
+        c.innerLayers[i]? = some ⟨nc, ⟨⟨Felt.ofNat h, nf⟩, tableRoot H nf h nc.val cell⟩⟩ →
+        h ≤ 250 → B (i + 1) ≤ 2 ^ h →
+        ∃ wi e st, ws[i]? = some wi ∧ c.evalPoints[i]? = some e ∧
+          c.config.friStepSizes[i + 1]? = some st ∧
+          ((LayerBound nc cell (q i) wi.leaves (Felt.pow 2 st.val) e (nl i) ∧
+              ∃ extra, wi.auths = authPath H nf h (tableLeaf H nf h nc.val cell)
+                ((nl i).verifyIndices.map (·.val)) ++ extra) ∨
+            Collision H ∨ ManyCollision H ∨ MaskedCollision H) := by
+  obtain ⟨q, nl, ht, hsound⟩ := fri_verify_sound queries c values points ws hok hne hs hb
+  refine ⟨q, nl, ht, ?_⟩
+  intro i hi nf h nc cell hc hh hBh
+  have hr := (trace_range ht hne hs hb B hB0 hB).2 i hi
+  exact hsound i hi nf h nc cell hc hh (fun x hx => Nat.lt_of_lt_of_le (hr x hx) hBh)
+
 end Swiftness.Proofs.FriSound
